@@ -29,6 +29,10 @@ META = {
                 text="fractional n_modes keeps the smallest sufficient number of precomputed modes (else all, with the warning), n_modes_precompute in [1,rank], every solver string either selects the documented back end or is refused before any work, every randomised back end receives the instance's seed and n_modes_precompute, solver_kwargs reach the back end unchanged through Decomposer, _SVD, SVD and PCA, and both sign functions make a largest-magnitude entry non-negative: discharged for all inputs. Accuracy of randomised solvers (with a spectral gap), bit-identity per seed and acceptance of solver_kwargs by every model class are bounded runs.",
                 note="assumed: cumulative sums of non-negative variances are monotone; randomised back ends deterministic in the seed and exact; xr.concat/idxmax/where semantics on one column; integers mathematical, floats real; bounded: 106 (quick) / ~330 (thorough) real runs",
                 ref="5/C15"),
+    "C17": dict(level="proof", technique="contract-based deductive verification of the refusal contracts (validators over all type cases with symbolic values, rank/solver/alpha/sample-count refusals of the kernels, label selection in reconstruction, item counts with symbolic list length) by symbolic tracing + z3; bounded single-fault injection on real fitted models as labelled stand-in",
+                text="each validator and refusal branch returns exactly for valid arguments and raises exactly for invalid ones (pairs 'returns => valid' and 'raises => invalid'), for all values; reconstruction returns only when every mode label of the scores names a model mode. Every public entry point of every model class under the property's single-fault mutations is evaluated on real models (bounded).",
+                note="assumed: xarray .sel KeyError semantics and inner-join alignment of xr.dot as modelled; finite type cases enumerated; Stacker/Sanitizer/Scaler checks on transform data are bounded here; known findings: POP ignores n_modes/solver, SparsePCA(n_modes=0); bounded: 155 (quick) / ~330 (thorough) fault injections",
+                ref="5/C17"),
 }
 NA_REASON = "no check registered yet in this snapshot of /verif (build in progress; see DESIGN.md section 5 for the plan)"
 
